@@ -110,6 +110,7 @@ type taskState struct {
 	scheds   int64 // how many times the task was resumed
 	reply    int64
 	spawnIdx int32
+	newborn  int   // StratStarve: decisions for which the not-yet-started task is still passed over
 	passed   int64 // decision points at which the task was enabled but not chosen, since it last ran
 }
 
@@ -409,6 +410,7 @@ func (r *Run) resume(t int32) {
 		r.objs[ts.obj].r++
 	}
 	ts.wait = waitNone
+	ts.newborn = 0
 	ts.scheds++
 	r.cur = t
 	setTask(t)
@@ -487,6 +489,9 @@ func (r *Run) step(m msg) bool {
 			r.tasks = append(r.tasks, taskState{wait: waitExited})
 		}
 		r.tasks[id] = taskState{parent: t, tag: m.b}
+		if r.Cfg.Strategy == StratStarve {
+			r.tasks[id].newborn = r.Cfg.StarveBudget
+		}
 		ts = &r.tasks[t]
 		r.St.Spawns++
 		r.lastProg = r.St.Steps
@@ -668,12 +673,12 @@ func (r *Run) pick() (next int32, live int) {
 		} else {
 			c = at(v % n)
 		}
-		if r.Cfg.Strategy == StratStarve && r.starveLeft > 0 && r.tasks[c].tag == r.Cfg.StarveTag && r.Cfg.StarveTag != 0 {
-			// starve: give the turn to the first enabled task without the tag, if any
+		if r.Cfg.Strategy == StratStarve && r.tasks[c].newborn > 0 {
+			// slow goroutine start: a task that has never run is passed over while anybody else can run
 			for i := 0; i < n; i++ {
-				if o := at(i); r.tasks[o].tag != r.Cfg.StarveTag {
+				if o := at(i); r.tasks[o].newborn == 0 {
+					r.tasks[c].newborn--
 					c = o
-					r.starveLeft--
 					r.St.StarvedSteps++
 					break
 				}
